@@ -24,7 +24,10 @@ type frame struct {
 	Text   string `json:"text"`   // the source line (indentation stripped)
 }
 
+// AltTail (optional): for a call that never starts its callee's body, a report may end at the
+// call statement or add the callee at the line of its declaration - both name the place
 type rtCase struct {
+	AltTail *frame            `json:"alt_tail,omitempty"`
 	Src     string            `json:"src"`
 	Modules map[string]string `json:"modules,omitempty"`
 	Chain   []frame           `json:"chain"`
@@ -119,6 +122,9 @@ func checkRuntime(c rtCase) []h.Failure {
 		return []h.Failure{{Sig: "runtime/no-location", Msg: fmt.Sprintf("%s\nthe reported error names no location:\n%s", ctx, o.Display)}}
 	}
 	want := c.Chain
+	if c.AltTail != nil && len(got) == len(want)+1 {
+		want = append(append([]frame{}, want...), *c.AltTail)
+	}
 	describe := func() string {
 		return fmt.Sprintf("%s\nfault: %s\nexpected chain (outermost first): %s\nreported:\n%s", ctx, c.Fault, fmtChain(want), o.Display)
 	}
@@ -175,9 +181,10 @@ func numbered(src string) string {
 // generator: a call chain across functions / methods / modules with one planted fault
 
 type gen struct {
-	t      *rapid.T
-	labels map[string]bool
-	n      int
+	t         *rapid.T
+	labels    map[string]bool
+	n         int
+	arityDecl *zn.FuncDef // declaration of the method called with a wrong argument count
 }
 
 func (g *gen) pick(n int, w string) int { return rapid.IntRange(0, n-1).Draw(g.t, w) }
@@ -236,7 +243,22 @@ func (g *gen) faultStmt() ([]zn.Stmt, zn.Stmt, string) {
 	div := func(den zn.Expr) zn.Expr {
 		return &zn.Bin{Op: ">", L: &zn.Bin{Op: "/", L: num(10), R: &zn.Grp{E: den}}, R: num(0)}
 	}
-	switch g.pick(11, "fault") {
+	switch g.pick(14, "fault") {
+	case 11:
+		// a failing library function: its own frame is built-in code, not a source line
+		g.labels["fault-in-library-function"] = true
+		return nil, show(&zn.Call{Name: "解析JSON", Args: []zn.Expr{&zn.Str{V: "x"}}}), "failing library function"
+	case 12:
+		// "calling" a plain variable: no call takes place
+		g.labels["fault-call-of-non-method"] = true
+		nv := fmt.Sprintf("非法%d", g.n)
+		return []zn.Stmt{&zn.Let{Names: []string{nv}, E: num(1)}}, &zn.ExprStmt{E: &zn.Call{Name: nv}}, "call of a name that is not a method"
+	case 13:
+		// wrong number of arguments: none of the callee's body runs
+		g.labels["fault-argument-count"] = true
+		fn := fmt.Sprintf("误参%d", g.n)
+		g.arityDecl = &zn.FuncDef{Name: fn, Params: []string{"参甲"}, Body: []zn.Stmt{&zn.Return{E: v("参甲")}}}
+		return []zn.Stmt{g.arityDecl}, show(&zn.Call{Name: fn, Args: []zn.Expr{num(1), num(2)}}), "argument count mismatch"
 	case 0:
 		return nil, &zn.Let{Names: []string{"坏"}, E: &zn.Bin{Op: "/", L: num(1), R: num(0)}}, "division by zero"
 	case 1:
@@ -332,16 +354,112 @@ type unit struct {
 	prog *zn.Program
 }
 
+// renderUnits - every unit rendered with its own drawn layout policy; physical line (0-based)
+// and text of every statement
+func (g *gen) renderUnits(units []*unit, fault string) (rtCase, map[zn.Stmt][2]any) {
+	t := g.t
+	c := rtCase{Modules: map[string]string{}, Fault: fault}
+	lineOf := map[zn.Stmt][2]any{}
+	for _, u := range units {
+		pol := &zn.Policy{Rich: true, Seed: rapid.Uint64().Draw(t, "seed-"+u.name), Features: map[string]bool{},
+			Tab: rapid.Bool().Draw(t, "tab-"+u.name), EOL: rapid.SampledFrom([]string{"\n", "\n", "\r\n", "\r", "\n\r"}).Draw(t, "eol-"+u.name)}
+		for _, f := range []string{"pre-line", "comment-indent", "trail-comment", "inner-break", "cont-indent", "opt-space", "extra-space", "final-eol", "quote-style"} {
+			if rapid.Bool().Draw(t, "feat-"+f) {
+				pol.Features[f] = true
+			}
+		}
+		src, lm := zn.Render(u.prog, pol)
+		if u.name == "" {
+			c.Src = src
+		} else {
+			c.Modules[u.name] = src
+		}
+		pl := physLines(src)
+		for st, ln := range lm {
+			lineOf[st] = [2]any{ln, strings.TrimLeft(pl[ln], " \t")}
+		}
+		if pol.EOL != "\n" {
+			g.labels["eol-"+strconv.Quote(pol.EOL)] = true
+		}
+	}
+	return c, lineOf
+}
+
+// TestDeclarationFaults - faults that arise while a module is being loaded or a type declared:
+// in the body of an imported module (chain: the 导入 statements down to the faulty statement)
+// and in a property initialiser (the 定义 statement)
+func TestDeclarationFaults(t *testing.T) {
+	rapid.Check(t, func(t *rapid.T) {
+		g := &gen{t: t, labels: map[string]bool{}}
+		nmods := rapid.IntRange(0, 2).Draw(t, "nmods") // modules between main and the faulty unit
+		names := []string{"", "乙", "丙"}
+		units := make([]*unit, nmods+1)
+		for i := range units {
+			units[i] = &unit{name: names[i], prog: &zn.Program{Imports: []zn.Import{{Name: "@JSON", Lib: true}}}}
+			units[i].prog.Body = append(units[i].prog.Body, helpers()...)
+		}
+		active := make([]zn.Stmt, nmods+1)
+		for i := 0; i < nmods; i++ {
+			// an import of something harmless before, the import that fails after
+			units[i].prog.Imports = append(units[i].prog.Imports, zn.Import{Name: names[i+1]})
+			units[i].prog.Body = append(units[i].prog.Body, g.filler(false)...)
+		}
+		last := units[nmods]
+		last.prog.Body = append(last.prog.Body, g.filler(false)...)
+		var fault string
+		if rapid.Bool().Draw(t, "classfault") {
+			cd := &zn.ClassDef{Name: "坏类", Props: []zn.Prop{{Name: "好", Init: num(1)}, {Name: "坏", Init: &zn.Bin{Op: "/", L: num(1), R: num(0)}}}}
+			last.prog.Body = append(last.prog.Body, cd)
+			active[nmods] = cd
+			fault = "division by zero in a property initialiser"
+			g.labels["fault-in-property-initialiser"] = true
+		} else {
+			pre, act, f := g.faultStmt()
+			if g.arityDecl != nil {
+				g.arityDecl = nil // (its tolerant tail needs the call-chain bookkeeping of TestRuntimeFaults)
+				pre, act, f = nil, &zn.Let{Names: []string{"坏"}, E: &zn.Bin{Op: "/", L: num(1), R: num(0)}}, "division by zero"
+			}
+			last.prog.Body = append(append(last.prog.Body, pre...), g.wrap(act))
+			active[nmods] = act
+			fault = f
+		}
+		if nmods > 0 {
+			g.labels["fault-while-importing"] = true
+		}
+		last.prog.Body = append(last.prog.Body, g.filler(false)...)
+		last.prog.Body = append(last.prog.Body, show(&zn.Str{V: "到不了这里"}))
+		c, lineOf := g.renderUnits(units, fault)
+		for i := 0; i <= nmods; i++ {
+			var st zn.Stmt = active[i]
+			if i < nmods {
+				imps := units[i].prog.Imports
+				st = &imps[len(imps)-1]
+			}
+			lt, ok := lineOf[st]
+			if !ok {
+				t.Fatalf("HARNESS: no line recorded for the active statement of unit %q", units[i].name)
+			}
+			c.Chain = append(c.Chain, frame{Module: units[i].name, Line: lt[0].(int) + 1, Text: lt[1].(string)})
+		}
+		var labels []string
+		for l := range g.labels {
+			labels = append(labels, l)
+		}
+		key, _ := json.Marshal(c)
+		h.R.Case(t, "runtime", string(key), c, labels, true, checkRuntime(c))
+	})
+}
+
 func TestRuntimeFaults(t *testing.T) {
 	rapid.Check(t, func(t *rapid.T) {
 		g := &gen{t: t, labels: map[string]bool{}}
 		depth := rapid.IntRange(0, 4).Draw(t, "depth") // number of calls between main and the fault
 		useMod := rapid.IntRange(0, 2).Draw(t, "usemod") == 0 && depth >= 1
-		main := &unit{name: "", prog: &zn.Program{}}
-		mod := &unit{name: "甲", prog: &zn.Program{}}
+		main := &unit{name: "", prog: &zn.Program{Imports: []zn.Import{{Name: "@JSON", Lib: true}}}}
+		mod := &unit{name: "甲", prog: &zn.Program{Imports: []zn.Import{{Name: "@JSON", Lib: true}}}}
 		units := []*unit{main}
 		if useMod {
-			main.prog.Imports = []zn.Import{{Name: "甲"}}
+			main.prog.Imports = append(main.prog.Imports, zn.Import{Name: "甲"})
 			units = append(units, mod)
 			mod.prog.Body = append(mod.prog.Body, []zn.Stmt{
 				&zn.FuncDef{Name: "完成", Params: []string{"数"}, Body: []zn.Stmt{&zn.Return{E: v("数")}}},
@@ -432,29 +550,10 @@ func TestRuntimeFaults(t *testing.T) {
 			g.labels["module-unused"] = true
 		}
 		// render every unit with its own layout policy
-		c := rtCase{Modules: map[string]string{}, Fault: fault}
-		lineOf := map[zn.Stmt][2]any{}
-		for _, u := range units {
-			pol := &zn.Policy{Rich: true, Seed: rapid.Uint64().Draw(t, "seed-"+u.name), Features: map[string]bool{},
-				Tab: rapid.Bool().Draw(t, "tab-"+u.name), EOL: rapid.SampledFrom([]string{"\n", "\n", "\r\n", "\r", "\n\r"}).Draw(t, "eol-"+u.name)}
-			for _, f := range []string{"pre-line", "comment-indent", "trail-comment", "inner-break", "cont-indent", "opt-space", "extra-space", "final-eol", "quote-style"} {
-				if rapid.Bool().Draw(t, "feat-"+f) {
-					pol.Features[f] = true
-				}
-			}
-			src, lm := zn.Render(u.prog, pol)
-			if u.name == "" {
-				c.Src = src
-			} else {
-				c.Modules[u.name] = src
-			}
-			pl := physLines(src)
-			for st, ln := range lm {
-				lineOf[st] = [2]any{ln, strings.TrimLeft(pl[ln], " \t")}
-			}
-			if pol.EOL != "\n" {
-				g.labels["eol-"+strconv.Quote(pol.EOL)] = true
-			}
+		c, lineOf := g.renderUnits(units, fault)
+		if g.arityDecl != nil {
+			lt := lineOf[zn.Stmt(g.arityDecl)]
+			c.AltTail = &frame{Module: home[depth].name, Line: lt[0].(int) + 1, Text: lt[1].(string)}
 		}
 		for i := 0; i <= depth; i++ {
 			lt := lineOf[active[i]]
